@@ -45,6 +45,85 @@ type lgCluster struct {
 	commit bool // component 102: answers are kept and can be processed by the sender (commitment)
 	ans    []lgAns
 	hb     map[int]bool
+	calls  map[[2]uint64]*evDriven // component 102: the replicateTo call in progress per (leader, follower)
+	out    map[[2]uint64]int       // ... and the request it waits for
+}
+
+// start the REAL replicateTo(j, last) at leader i in its own goroutine; returns once it has
+// built a request (now waiting in the transport) or has returned without sending
+func (c *lgCluster) startRepl(i, j, last uint64) *evDriven {
+	n := c.nodes[i]
+	d := &evDriven{from: i, to: j, last: last, inst: n.inst, parked: make(chan struct{}, 1), verdict: make(chan *raft.AppendEntriesResponse, 1), done: make(chan struct{})}
+	started := make(chan struct{})
+	go func() {
+		id := goid()
+		c.mu.Lock()
+		c.driven[id] = d
+		c.mu.Unlock()
+		close(started)
+		defer func() {
+			recover() // the leadership state may be gone (nil map): the call simply ends
+			c.mu.Lock()
+			delete(c.driven, id)
+			c.mu.Unlock()
+			close(d.done)
+		}()
+		n.r.VerifReplicateTo(idStr(j), last)
+	}()
+	<-started
+	select {
+	case <-d.parked:
+		return d
+	case <-d.done:
+		return nil
+	case <-time.After(2 * time.Second):
+		return nil
+	}
+}
+
+// after an answer was handed back: replicateTo either builds the next request or returns
+func (c *lgCluster) afterVerdict(d *evDriven) bool {
+	select {
+	case <-d.parked:
+		return true
+	case <-d.done:
+		return false
+	case <-time.After(2 * time.Second):
+		return false
+	}
+}
+
+// calls of a leadership that is over never get an answer
+func (c *lgCluster) dropDeadCalls() {
+	for k, d := range c.calls {
+		n := c.nodes[k[0]]
+		if n.inst != d.inst || n.r.State() != raft.Leader || n.r.CurrentTerm() != d.req.Term {
+			d.verdict <- nil
+			<-d.done
+			delete(c.calls, k)
+			delete(c.out, k)
+		}
+	}
+}
+
+func newLgCluster(extras []uint64, commit bool) *lgCluster {
+	c := &lgCluster{evCluster: newEvCluster(extras), commit: commit, calls: map[[2]uint64]*evDriven{}, out: map[[2]uint64]int{}}
+	if commit {
+		c.driven = map[uint64]*evDriven{}
+	}
+	return c
+}
+
+func (c *lgCluster) closeAll() {
+	for k, d := range c.calls {
+		d.verdict <- nil
+		select {
+		case <-d.done:
+		case <-time.After(time.Second):
+		}
+		delete(c.calls, k)
+	}
+	c.close()
 }
 
 func lgData(l *raft.Log) uint64 {
@@ -55,6 +134,10 @@ func lgData(l *raft.Log) uint64 {
 }
 
 func (c *lgCluster) observe() []uint64 {
+	if len(c.calls) > 0 {
+		c.settle()
+		c.dropDeadCalls()
+	}
 	base := c.settle() // per server 5 values, then the number of Leader transitions
 	var out []uint64
 	for i := 0; i < c.n; i++ {
@@ -72,6 +155,21 @@ func (c *lgCluster) observe() []uint64 {
 		out = append(out, uint64(len(es)))
 		for _, l := range es {
 			out = append(out, l.Index, l.Term, uint64(l.Type), lgData(l))
+		}
+		if c.commit {
+			// a leader: the nextIndex of every other server
+			nd := c.nodes[uint64(i+1)]
+			if nd.r.State() == raft.Leader {
+				out = append(out, uint64(c.n-1))
+				for j := 1; j <= c.n; j++ {
+					if j != i+1 {
+						nx, _ := nd.r.VerifReplNext(idStr(uint64(j)))
+						out = append(out, nx)
+					}
+				}
+			} else {
+				out = append(out, 0)
+			}
 		}
 	}
 	out = append(out, base[5*c.n], uint64(len(c.msgs)))
@@ -103,6 +201,25 @@ func (c *lgCluster) doRepl(op []uint64) bool {
 		if n.r.State() != raft.Leader || op[1] == op[2] {
 			return false
 		}
+		if c.commit {
+			// replicateTo's START with the follower's real nextIndex (op[3] is what it turned out to be)
+			k := [2]uint64{op[1], op[2]}
+			d := c.calls[k]
+			if d == nil {
+				if nx, _ := n.r.VerifReplNext(idStr(op[2])); nx != op[3] {
+					return false
+				}
+				if d = c.startRepl(op[1], op[2], op[4]); d == nil {
+					return false
+				}
+				c.calls[k] = d
+			} else if _, waiting := c.out[k]; waiting || d.last != op[4] || d.req.PrevLogEntry+1 != op[3] {
+				return false
+			}
+			c.out[k] = len(c.msgs)
+			c.msgs = append(c.msgs, lgMsg{op[1], op[2], d.req})
+			return true
+		}
 		req, err := n.r.VerifSetupAppendEntries(idStr(op[2]), op[3], op[4])
 		if err != nil {
 			return false
@@ -131,40 +248,78 @@ func (c *lgCluster) doRepl(op []uint64) bool {
 			}
 		}
 	case 12:
-		// the sender's replication code processes the answer (the branches of replicateTo after the call)
+		// the answer to the outstanding call returns to the REAL replicateTo, which processes it
+		// (handleStaleTerm / updateLastAppended -> commitment.match / nextIndex) and either builds the next
+		// request (recorded by the caller as a further op 8) or returns
 		if !c.commit || op[1] >= uint64(len(c.ans)) {
 			return false
 		}
 		a := c.ans[op[1]]
-		if c.hb[a.req] {
+		m := c.msgs[a.req]
+		k := [2]uint64{m.from, m.to}
+		d := c.calls[k]
+		if w, ok := c.out[k]; d == nil || !ok || w != a.req {
 			return false
 		}
-		req := c.msgs[a.req].req
-		n := c.nodes[c.msgs[a.req].from]
-		if n.r.State() != raft.Leader || n.r.CurrentTerm() != req.Term {
+		n := c.nodes[m.from]
+		if n.r.State() != raft.Leader || n.r.CurrentTerm() != m.req.Term {
 			return false
 		}
-		n.r.VerifProcessAppendResponse(idStr(c.msgs[a.req].to), req, a.resp)
+		delete(c.out, k)
+		d.verdict <- a.resp
+		if !c.afterVerdict(d) {
+			delete(c.calls, k)
+		}
+	case 14:
+		// the leader loop consumed commitCh: it has happened by the time the cluster is quiet
+		return c.commit
+	case 13:
+		k := [2]uint64{op[1], op[2]}
+		d := c.calls[k]
+		if _, ok := c.out[k]; d == nil || !ok || c.nodes[op[1]].r.State() != raft.Leader {
+			return false
+		}
+		delete(c.out, k)
+		delete(c.calls, k)
+		d.verdict <- nil
+		<-d.done
 	default:
 		return c.do(op)
 	}
 	return true
 }
 
-var lgOpLen = map[uint64]int{1: 2, 2: 3, 3: 3, 4: 6, 5: 2, 7: 3, 8: 5, 9: 3, 10: 2, 12: 2}
+var lgOpLen = map[uint64]int{1: 2, 2: 3, 3: 3, 4: 6, 5: 2, 7: 3, 8: 5, 9: 3, 10: 2, 12: 2, 13: 3, 14: 2}
 
 func c101Gen(r *rng, n int, steps int, commit bool) (in []uint64, obs []uint64, leaders int) {
 	extras := make([]uint64, n)
 	for i := range extras {
 		extras[i] = uint64(r.intn(3))
 	}
-	c := &lgCluster{evCluster: newEvCluster(extras), commit: commit}
-	defer c.close()
+	c := newLgCluster(extras, commit)
+	defer c.closeAll()
 	c.settle()
 	in = append([]uint64{uint64(n)}, extras...)
 	emit := func(op []uint64) {
+		var ldr *evNode
+		var before uint64
+		if commit && op[0] == 12 && op[1] < uint64(len(c.ans)) {
+			ldr = c.nodes[c.msgs[c.ans[op[1]].req].from]
+			before = ldr.r.CommitIndex()
+		}
 		if !c.doRepl(op) {
 			return
+		}
+		if ldr != nil {
+			// the replication goroutine recorded the match, and by the time the cluster is quiet the leader loop
+			// has consumed commitCh: two steps of the model, the state between them cannot be observed
+			c.settle()
+			if ldr.r.CommitIndex() != before {
+				in = append(in, 99)
+				in = append(in, op...)
+				obs = append(obs, 2)
+				op = []uint64{14, ldr.id}
+			}
 		}
 		in = append(in, op...)
 		obs = append(obs, 1)
@@ -230,7 +385,36 @@ func c101Gen(r *rng, n int, steps int, commit bool) (in []uint64, obs []uint64, 
 			if r.chance(1, 6) {
 				k = r.intn(len(c.ans))
 			}
+			if r.chance(1, 12) && len(c.out) > 0 {
+				// the call fails instead (timeout): its answer will never be used
+				var pick [2]uint64
+				for key := range c.out {
+					if pick[0] == 0 || key[0] < pick[0] || (key[0] == pick[0] && key[1] < pick[1]) {
+						pick = key
+					}
+				}
+				emit([]uint64{13, pick[0], pick[1]})
+				continue
+			}
+			// prefer an answer some call is waiting for
+			for q := len(c.ans) - 1; q >= 0 && q >= len(c.ans)-8; q-- {
+				m := c.msgs[c.ans[q].req]
+				if w, ok := c.out[[2]uint64{m.from, m.to}]; ok && w == c.ans[q].req && r.chance(3, 4) {
+					k = q
+					break
+				}
+			}
 			emit([]uint64{12, uint64(k)})
+			// replicateTo went on: the next request it built
+			// (that only happens after a refusal - every call is started with at most one batch to send - so
+			// the commit index is not moving while it is built); the call is then made to fail, and a
+			// later call starts from the new nextIndex with a fresh lastIndex
+			for key, d := range c.calls {
+				if _, waiting := c.out[key]; !waiting {
+					emit([]uint64{8, key[0], key[1], d.req.PrevLogEntry + 1, d.last})
+					emit([]uint64{13, key[0], key[1]})
+				}
+			}
 		case x < 56:
 			// a leader acts: propose, build a request, heartbeat
 			i := leaders[r.intn(len(leaders))][0]
@@ -258,6 +442,19 @@ func c101Gen(r *rng, n int, steps int, commit bool) (in []uint64, obs []uint64, 
 				last := li
 				if r.chance(1, 5) {
 					last = uint64(r.intn(int(li) + 1))
+				}
+				if commit {
+					// replicateTo builds the request from the follower's real nextIndex; one call per follower at a time
+					if c.calls[[2]uint64{i, j}] != nil {
+						continue
+					}
+					nx, _ = c.nodes[i].r.VerifReplNext(idStr(j))
+					// one batch per call (MaxAppendEntries = 4): after a success replicateTo returns, so no request is
+					// built while the leader loop is still advancing the commit index (either LeaderCommit value
+					// would be legitimate there; the model takes the steps one at a time)
+					if last > nx+3 {
+						last = nx + 3
+					}
 				}
 				emit([]uint64{8, i, j, nx, last})
 				if r.chance(2, 3) {
@@ -306,12 +503,19 @@ func c101Gen(r *rng, n int, steps int, commit bool) (in []uint64, obs []uint64, 
 func c101Run(in0 []uint64, commit bool) (in []uint64, obs []uint64, leaders int) {
 	n := int(in0[0])
 	extras := in0[1 : 1+n]
-	c := &lgCluster{evCluster: newEvCluster(extras), commit: commit}
-	defer c.close()
+	c := newLgCluster(extras, commit)
+	defer c.closeAll()
 	c.settle()
 	in = append([]uint64{uint64(n)}, extras...)
 	p := 1 + n
 	for p < len(in0) && !c.lost {
+		silent := in0[p] == 99
+		if silent {
+			p++
+		}
+		if p >= len(in0) {
+			break
+		}
 		l := lgOpLen[in0[p]]
 		if l == 0 || p+l > len(in0) {
 			break
@@ -319,6 +523,12 @@ func c101Run(in0 []uint64, commit bool) (in []uint64, obs []uint64, leaders int)
 		op := in0[p : p+l]
 		p += l
 		if !c.doRepl(op) {
+			continue
+		}
+		if silent {
+			in = append(in, 99)
+			in = append(in, op...)
+			obs = append(obs, 2)
 			continue
 		}
 		in = append(in, op...)
